@@ -89,8 +89,9 @@ pub enum Op {
     KeygenBurst,
     PqBinding,
     RaiseTracing,
+    FreshInstances,
 }
-pub const N_OPS: usize = 30;
+pub const N_OPS: usize = 31;
 
 /// Base weights per property profile.
 pub fn base_weights(prop: &str) -> Vec<u32> {
@@ -125,7 +126,9 @@ pub fn base_weights(prop: &str) -> Vec<u32> {
         "C04" => {
             set(stat);
             set(refresh);
-            set(&[(Rekey, 6), (Reload, 1)]);
+            // renames free names and give them to other attributes: a policy names the attribute
+            // that holds the name *now*
+            set(&[(Rekey, 6), (Reload, 1), (RenameAttr, 2)]);
         }
         "C05" => {
             set(stat);
@@ -157,10 +160,10 @@ pub fn base_weights(prop: &str) -> Vec<u32> {
         "C16" => {
             set(stat);
             set(refresh);
-            set(&[(Rekey, 5), (EncryptRepeat, 6), (Reload, 2), (Recaps, 2), (Keygen, 5), (DisableAttr, 2), (Update, 3), (Prune, 1), (EncryptOtherThread, 3)]);
+            set(&[(Rekey, 5), (EncryptRepeat, 6), (Reload, 2), (Recaps, 2), (Keygen, 5), (DisableAttr, 2), (Update, 3), (Prune, 1), (EncryptOtherThread, 3), (FreshInstances, 2)]);
         }
         "C17" => {
-            set(&[(Keygen, 6), (Publish, 1), (Deliver, 6), (Encrypt, 2), (Read, 2), (RequestRefresh, 6), (Rekey, 2), (Reload, 3), (Backup, 2), (Restore, 2), (ForgedRefresh, 2), (KeygenBurst, 1)]);
+            set(&[(Keygen, 6), (Publish, 1), (Deliver, 6), (Encrypt, 2), (Read, 2), (RequestRefresh, 6), (Rekey, 2), (Reload, 3), (Backup, 2), (Restore, 2), (ForgedRefresh, 2), (KeygenBurst, 1), (FreshInstances, 2)]);
         }
         "C07" => {
             set(stat);
@@ -498,7 +501,7 @@ impl Gen {
             let mut d = MDim { name: dname.clone(), hierarchy, attrs: vec![] };
             let cap = if self.sw.n_dims >= 4 { self.sw.max_attrs.min(2) } else { self.sw.max_attrs };
             let n_attrs = if self.sw.broad {
-                *rng.pick(&[130usize, 200, 257, 258, 300, 200, 257, 1030])
+                *rng.pick(&[130usize, 200, 257, 258, 300, 200, 257, 1030, 300, 2060])
             } else if self.sw.huge {
                 // (the second configuration's curve is several times slower: about 1 200 rights
                 // there, 5 000 in the default one)
@@ -636,7 +639,11 @@ impl Gen {
         if self.sw.broad && rng.pct(50) {
             // a disjunction of k attributes of the big anarchy, k around the byte boundaries
             if let Some(d) = s.dims.iter().find(|d| d.attrs.len() >= 129) {
-                let k = (*rng.pick(&[127usize, 128, 129, 160, 255, 256, 257, 258, 1024, 1025, 1030])).min(d.attrs.len());
+                let mut k = (*rng.pick(&[127usize, 128, 129, 160, 255, 256, 257, 258, 1024, 1025, 1030, 2049, 2060])).min(d.attrs.len());
+                if d.attrs.len() > 1024 && rng.pct(70) {
+                    // the widest encapsulation this structure allows
+                    k = d.attrs.len();
+                }
                 let mut idx: Vec<usize> = (0..d.attrs.len()).collect();
                 rng.shuffle(&mut idx);
                 // balanced tree (a 257-deep chain exceeds the JSON recursion limit of replay files)
@@ -866,6 +873,7 @@ impl Gen {
                     // past the one-byte count (128), past 256, and - where re-encapsulation or
                     // key tampering is the subject - past 512
                     let n = match rng.below(10) {
+                        0 if matches!(self.prop.as_str(), "C18" | "C04") && rng.pct(50) => rng.range(2049, 2060),
                         0 if matches!(self.prop.as_str(), "C18" | "C08" | "C04") => rng.range(515, 525),
                         0 | 1 | 2 => rng.range(257, 270),
                         3 | 4 | 5 if self.prop == "C08" => rng.range(257, 262),
@@ -1030,12 +1038,15 @@ impl Gen {
                 }
                 let slot = rng.below(w.slots.len());
                 let len = w.slots[slot].bytes.len().max(1);
+                // long objects: the last few hundred bytes (the last components of a wide
+                // encapsulation) are hit as often as everything before them
+                let mut at = |rng: &mut Rng| if len > 4000 && rng.pct(35) { len - 1 - rng.below(600) } else { rng.below(len) };
                 let op = match rng.below(14) {
-                    12 | 13 => ByteOp::XorPair { pos: rng.below(len), dist: *rng.pick(&[1usize, 2, 4, 8, 8, 16, 32]), delta: 1 << rng.below(8) },
+                    12 | 13 => ByteOp::XorPair { pos: at(rng), dist: *rng.pick(&[1usize, 2, 4, 8, 8, 16, 32]), delta: 1 << rng.below(8) },
                     10 => ByteOp::AadVariant { mode: 0 },
                     11 => ByteOp::AadVariant { mode: 1 + rng.below(200) as u8 },
-                    0..=3 => ByteOp::FlipBit { pos: rng.below(len), bit: rng.below(8) as u8 },
-                    4 => ByteOp::SetByte { pos: rng.below(len), val: rng.below(256) as u8 },
+                    0..=3 => ByteOp::FlipBit { pos: at(rng), bit: rng.below(8) as u8 },
+                    4 => ByteOp::SetByte { pos: at(rng), val: rng.below(256) as u8 },
                     5 | 6 => ByteOp::Truncate { len: rng.below(len) },
                     7 => ByteOp::Extend { bytes: { let n = rng.range(1, 40); rng.bytes(n) } },
                     8 => ByteOp::Torn { cut: rng.below(len), other_slot: rng.below(w.slots.len()) },
@@ -1050,10 +1061,13 @@ impl Gen {
                 let slot = rng.below(w.slots.len());
                 let n = w.slots[slot].m.targets.len().max(1);
                 let other = rng.below(w.slots.len());
+                // long encapsulations: the last components are targeted as often as all others
+                let mut idx = |rng: &mut Rng| if n > 8 && rng.pct(40) { n - 1 - rng.below(3) } else { rng.below(n) };
+                let len = w.slots[slot].bytes.len().max(1);
                 let op = match rng.below(14) {
-                    0 => EncOp::SwapEncs { i: rng.below(n), j: rng.below(n) },
-                    1 => EncOp::DropEnc { i: rng.below(n) },
-                    2 => EncOp::DupEnc { i: rng.below(n) },
+                    0 => EncOp::SwapEncs { i: idx(rng), j: idx(rng) },
+                    1 => EncOp::DropEnc { i: idx(rng) },
+                    2 => EncOp::DupEnc { i: idx(rng) },
                     3 => EncOp::SwapTraps,
                     4 => EncOp::DropTrap { i: rng.below(2) },
                     5 => EncOp::DupTrap { i: rng.below(2) },
@@ -1064,7 +1078,7 @@ impl Gen {
                     10 => EncOp::RewriteCount { val: *rng.pick(&[0u64, 1, 2, 3, 5]) },
                     11 => EncOp::SwapSeedsOnly { i: rng.below(n), j: rng.below(n) },
                     12 => EncOp::MetaFrom { other_slot: other },
-                    _ => EncOp::FlipPayloadBit { pos: rng.below(5000), bit: rng.below(8) as u8 },
+                    _ => EncOp::FlipPayloadBit { pos: if len > 5000 && rng.pct(40) { len - 1 - rng.below(300) } else { rng.below(5000) }, bit: rng.below(8) as u8 },
                 };
                 Ev::TamperEnc { slot, op }
             }
@@ -1094,6 +1108,11 @@ impl Gen {
                     return None;
                 }
                 Ev::ScaleProbe { n: *rng.pick(&[10_000usize, 12_000]) }
+            }
+            x if x == Op::FreshInstances as usize => {
+                let es: Vec<usize> = (0..w.encryptors.len()).filter(|e| w.encryptors[*e].mpk.is_some()).collect();
+                let e = *rng.pick_opt(&es)?;
+                Ev::FreshInstances { user: rng.below(w.users.len()), enc: e, kpol: self.keygen_pol(rng, w), epol: self.enc_pol(rng, w, e) }
             }
             x if x == Op::EncryptOtherThread as usize => {
                 let es: Vec<usize> = (0..w.encryptors.len()).filter(|e| w.encryptors[*e].mpk.is_some()).collect();
